@@ -1,0 +1,77 @@
+//go:build verif
+
+package bitcoin_reader
+
+import (
+	"context"
+	"net"
+	"time"
+
+	"github.com/tokenized/threads"
+)
+
+// Hooks used only by the external verification harness (build tag "verif"). They add entry points
+// and never change the behaviour of existing code.
+
+// VerifRunWithConn runs the node on an already established connection.
+func (n *BitcoinNode) VerifRunWithConn(ctx context.Context, connection net.Conn,
+	interrupt <-chan interface{}) error {
+
+	if err := n.mockConnect(ctx, connection); err != nil {
+		return err
+	}
+
+	return n.run(ctx, interrupt)
+}
+
+// VerifAddNode adds an externally run node to the list of nodes used to serve requests.
+func (m *NodeManager) VerifAddNode(node *BitcoinNode) {
+	m.Lock()
+	defer m.Unlock()
+
+	thread := threads.NewInterruptableThread("Verif Node",
+		func(ctx context.Context, interrupt <-chan interface{}) error {
+			return nil
+		})
+
+	m.nodes = append(m.nodes, &nodeThread{
+		node:   node,
+		thread: thread,
+		id:     node.ID(),
+	})
+}
+
+// VerifMarkStartupDelayComplete performs the action taken when the startup delay expires.
+func (m *NodeManager) VerifMarkStartupDelayComplete(ctx context.Context) {
+	m.markStartupDelayComplete(ctx)
+}
+
+// VerifSetInSync sets the "in sync" flag normally set by the first recent header.
+func (m *NodeManager) VerifSetInSync() {
+	m.Lock()
+	defer m.Unlock()
+
+	m.inSync = true
+}
+
+// VerifWaitSyncBlocks waits for the block synchronization thread to finish.
+func (m *NodeManager) VerifWaitSyncBlocks() {
+	m.syncBlocksWait.Wait()
+}
+
+// VerifAgeRequests makes every outstanding tx request look "age" older.
+func (m *TxManager) VerifAgeRequests(age time.Duration) {
+	for i := 0; i < 256; i++ {
+		m.RLock()
+		txMap := m.txMaps[i]
+		m.RUnlock()
+
+		txMap.Lock()
+		for _, data := range txMap.txs {
+			data.Lock()
+			data.LastRequested = data.LastRequested.Add(-age)
+			data.Unlock()
+		}
+		txMap.Unlock()
+	}
+}
